@@ -207,7 +207,7 @@ def single_faults(doc):
         if kind in ('basic', 'compound', 'orthogonal'):
             def addt(td):
                 return lambda s2, p2, d2: s2.setdefault('transitions', []).append(dict(td))
-            yield ('unknown target', kind, idx, at(addt({'target': ('NOPE', None)[idx % 4 == 3 and 'None' not in names], 'event': 'e'})))
+            yield ('unknown target', kind, idx, at(addt(dict({'target': ('NOPE', None)[idx % 4 == 3 and 'None' not in names], 'event': 'e'}, **({'guard': '  '} if idx % 3 == 1 else {})))))
             yield ('empty target', kind, idx, at(addt({'target': '', 'event': 'e'})))
             nm = names[idx % len(names)]
             near = nm + ' ' if not nm.endswith(' ') else nm.strip() + '_'
